@@ -116,11 +116,11 @@ def run(res, tier, seed, driver_ok):
             with contextlib.redirect_stdout(io.StringIO()):
                 dT = richardson(fkM, th, i)
             tw = vee6(dT @ np.linalg.inv(T))
-            if np.max(np.abs(tw - Js[:, i])) > 1e-6 * scale:
+            if G.gt(np.max(np.abs(tw - Js[:, i])), 1e-6 * scale):
                 bad('js-not-derivative', 'space Jacobian column differs from the spatial twist of d(FK)/d(theta_i)', dict(inp, joint=i), {'diff': G.maxdiff(tw, Js[:, i])}); break
         # 2. body Jacobian = Ad(inv T) Js
         want = armh.Ad(np.linalg.inv(T)) @ Js
-        if np.max(np.abs(Jb - want)) > 1e-6 * max(1.0, float(np.linalg.norm(want))):
+        if G.gt(np.max(np.abs(Jb - want)), 1e-6 * max(1.0, float(np.linalg.norm(want)))):
             bad('jb-not-adjoint:%s' % ('+'.join(h[0] for h in hist) or 'fresh'), 'body Jacobian differs from Ad(inv(T)) * J_space', inp, {'diff': G.maxdiff(Jb, want)})
         # 3. frame-aligned, link and numerical variants
         with contextlib.redirect_stdout(io.StringIO()):
@@ -128,13 +128,13 @@ def run(res, tier, seed, driver_ok):
                 Je = np.asarray(arm.jacobianEETrans(th.copy()), dtype=float)
                 Tp = np.eye(4); Tp[:3, 3] = T[:3, 3]
                 wantE = armh.Ad(np.linalg.inv(Tp)) @ Js
-                if np.max(np.abs(Je - wantE)) > 1e-6 * scale:
+                if G.gt(np.max(np.abs(Je - wantE)), 1e-6 * scale):
                     bad('jacobianEETrans', 'tool-aligned Jacobian differs from Ad(inv(translation of T)) * J_space', inp, {'diff': G.maxdiff(Je, wantE)})
             except Exception as e:
                 bad('raises:jacobianEETrans:%s' % type(e).__name__, 'jacobianEETrans raised', inp, repr(e))
             try:
                 Jn = np.asarray(arm.numericalJacobian(th.copy()), dtype=float)
-                if np.max(np.abs(Jn - Js)) > 2e-6 * scale:
+                if G.gt(np.max(np.abs(Jn - Js)), 2e-6 * scale):
                     bad('numericalJacobian', 'numerical Jacobian differs from the analytic space Jacobian', inp, {'diff': G.maxdiff(Jn, Js)})
             except Exception as e:
                 bad('raises:numericalJacobian:%s' % type(e).__name__, 'numericalJacobian raised', inp, repr(e))
@@ -147,14 +147,14 @@ def run(res, tier, seed, driver_ok):
                         bad('raises:jacobianLink:%s' % type(e).__name__, 'jacobianLink raised', dict(inp, link=i), repr(e)); break
                     Jpad = np.hstack((Js[:, :i + 1], np.zeros((6, nj - i - 1))))
                     wantL = armh.Ad(np.linalg.inv(Tl)) @ Jpad
-                    if np.max(np.abs(Jl - wantL)) > 1e-6 * scale:
+                    if G.gt(np.max(np.abs(Jl - wantL)), 1e-6 * scale):
                         bad('jacobianLink', 'link Jacobian differs from Ad(inv(T_link)) * (first columns of J_space)', dict(inp, link=i), {'diff': G.maxdiff(Jl, wantL)}); break
                     if spec is not None and not hist:
                         Tl_ref = armh.T6(spec.base6).copy()
                         for k in range(i + 1):
                             Tl_ref = Tl_ref @ armh.expm6(spec.S[:, k], th[k])
                         Tl_ref = Tl_ref @ info_link(info, i)
-                        if np.max(np.abs(Tl - Tl_ref)) > 1e-7 * max(1.0, np.max(np.abs(Tl_ref))):
+                        if G.gt(np.max(np.abs(Tl - Tl_ref)), 1e-7 * max(1.0, np.max(np.abs(Tl_ref)))):
                             bad('FKLink', 'link pose differs from base*prod(exp, joints 0..i)*link home', dict(inp, link=i), {'diff': G.maxdiff(Tl, Tl_ref)}); break
         # 4. velocities and statics
         qd = np.array([rnd.uniform(-2, 2) for _ in range(nj)])
@@ -163,7 +163,7 @@ def run(res, tier, seed, driver_ok):
             v = np.asarray(arm.velocityAtEndEffector(qd.copy(), th.copy()), dtype=float).reshape(-1)
             W = Wrench(F.copy().reshape((6, 1)))
             tau = np.asarray(arm.staticForces(W, th.copy()), dtype=float).reshape(-1)
-        if np.max(np.abs(v - Js @ qd)) > 1e-9 * scale * 10:
+        if G.gt(np.max(np.abs(v - Js @ qd)), 1e-9 * scale * 10):
             bad('velocityAtEndEffector', 'tool twist differs from J * rates', inp, G.maxdiff(v, Js @ qd))
         if abs(tau @ qd - F @ (Js @ qd)) > 1e-8 * max(1.0, abs(F @ (Js @ qd))):
             bad('power', 'torque . rate differs from wrench . twist', inp, [float(tau @ qd), float(F @ (Js @ qd))])
@@ -172,7 +172,7 @@ def run(res, tier, seed, driver_ok):
             with contextlib.redirect_stdout(io.StringIO()):
                 Fb = arm.staticForcesInv(tau.copy(), th.copy())
             Fb = np.asarray(Fb.getData() if hasattr(Fb, 'getData') else Fb, dtype=float).reshape(-1)
-            if np.max(np.abs(Fb - F)) > 1e-6 * max(1.0, np.linalg.norm(F)):
+            if G.gt(np.max(np.abs(Fb - F)), 1e-6 * max(1.0, np.linalg.norm(F))):
                 bad('staticForcesInv', 'mapping torques back does not return the wrench at a full-rank configuration', inp, {'diff': G.maxdiff(Fb, F)})
         # 4a. argument forms: the same queries with the joint vector given BY KEYWORD while the arm's stored state is somewhere else
         if n_ % 3 == 0:
@@ -186,7 +186,7 @@ def run(res, tier, seed, driver_ok):
                     arm.FK(th.copy())
                 stats['keyword_forms'] = stats.get('keyword_forms', 0) + 1
                 for nm_, got_, want_ in (('velocityAtEndEffector', vk, v), ('staticForces', tk, tau), ('jacobian', Jk, Js), ('jacobianBody', Jbk, Jb)):
-                    if got_.shape != np.asarray(want_).shape or np.max(np.abs(got_ - want_)) > 1e-9 * scale * 10:
+                    if got_.shape != np.asarray(want_).shape or G.gt(np.max(np.abs(got_ - want_)), 1e-9 * scale * 10):
                         bad('keyword-form:%s' % nm_, '%s(..., theta=q) from another stored state differs from the same query with q given positionally' % nm_, inp,
                             {'diff': G.maxdiff(got_, np.asarray(want_)) if got_.shape == np.asarray(want_).shape else 'shape'})
             except Exception as e:
@@ -214,7 +214,7 @@ def run(res, tier, seed, driver_ok):
                         tau2 = np.asarray(arm.staticForces(Wrench(F.copy().reshape((6, 1))), th2.copy()), dtype=float).reshape(-1)
                         Fb2 = arm.staticForcesInv(tau2.copy(), th2.copy())
                     Fb2 = np.asarray(Fb2.getData() if hasattr(Fb2, 'getData') else Fb2, dtype=float).reshape(-1)
-                    if np.max(np.abs(Fb2 - F)) > 1e-6 * max(1.0, np.linalg.norm(F)):
+                    if G.gt(np.max(np.abs(Fb2 - F)), 1e-6 * max(1.0, np.linalg.norm(F))):
                         bad('staticForcesInv', 'mapping torques back does not return the wrench at a full-rank configuration', dict(inp, theta=th2.tolist(), cond=float(c2)), {'diff': G.maxdiff(Fb2, F)})
                     with contextlib.redirect_stdout(io.StringIO()):
                         arm.FK(th.copy())
@@ -239,7 +239,7 @@ def run(res, tier, seed, driver_ok):
                 ws = [np.asarray(fsr.makeWrench(jt[k] @ arm._link_mass_grav_centers[k], arm._link_masses[k], arm.grav).getData(), dtype=float).reshape(-1) for k in range(1, nj + 1)]
                 Hh = lambda xs: ' '.join(C.f2h(x) for x in np.asarray(xs, dtype=float).reshape(-1))
                 lines.append('dyn.linkmass %s %s %s %s' % (C.f2h(nj), Hh(F), Hh(Js.T), Hh(np.array(ws)))); expect.append(tm_.copy())
-                if np.max(np.abs(tm_ - want)) > 1e-6 * max(1.0, np.linalg.norm(want)):
+                if G.gt(np.max(np.abs(tm_ - want)), 1e-6 * max(1.0, np.linalg.norm(want))):
                     bad('linkmass', 'link-mass statics differ from J^T F plus the moment of each distal link weight about each joint axis', inp, {'got': tm_.tolist(), 'want': want.tolist()})
             except Exception as e:
                 bad('raises:staticForcesWithLinkMasses:%s' % type(e).__name__, 'staticForcesWithLinkMasses raised', inp, repr(e))
